@@ -50,6 +50,9 @@ def cases_for(rng, q):
         cases.append(("case", ["adapter 1 ok", "aread 1", "close 1", "%s 2 ok" % kind, "aread 2", "timer 3 ok", "close 3", "aread 2", "close 2", "census"]))
         cases.append(("case", ["dial 9 ok", "adapter 1 ok", "aread 1", "aread 9", "close 1", "%s 2 ok" % kind, "aread 2", "close 9", "%s 4 ok" % kind, "aread 4",
                                "close 2", "close 4", "census"]))
+    # a ReadAll that got a part of its bytes and waits again must still be the object the registry keeps alive
+    cases.append(("case", ["dial 1 ok", "areadall 1", "feed 1 3", "poll", "feed 1 2", "poll", "timer 2 ok", "close 2", "poll", "feed 1 3", "poll", "close 1", "census"]))
+    cases.append(("case", ["dial 1 ok", "dial 2 ok", "areadall 1", "areadall 2", "feed 2 5", "poll", "feed 1 1", "poll", "poll", "close 1", "feed 2 3", "poll", "close 2", "census"]))
     # random histories
     for _ in range(20 if q else 400):
         ops = []
